@@ -474,6 +474,8 @@ pub struct JusticeOracle {
 	/// (feerate sat/kw, weight, value of all its inputs, txid)
 	first_claim_at: BTreeMap<OutPoint, u32>,
 	latest_claim: BTreeMap<OutPoint, (f64, u64, u64, Txid)>,
+	/// inputs of each claim transaction recorded in `latest_claim`
+	claim_inputs: BTreeMap<Txid, Vec<OutPoint>>,
 	/// per contested outpoint: (feerate sat/kw, fee sat, txid) of the first claim of the current claiming period
 	first_claim: BTreeMap<OutPoint, (f64, u64, Txid)>,
 	cur_v_height: u32,
@@ -489,7 +491,7 @@ fn fail(oracle: &str, detail: String) -> Failure {
 
 impl JusticeOracle {
 	pub fn new(sim: &Sim, v: usize, chan: ChannelId, tk: TkInfo) -> JusticeOracle {
-		let mut o = JusticeOracle { v, chan, tk, cur_log: 0, v_txids: BTreeSet::new(), v_txs: vec![], issued: BTreeMap::new(), issued_durable: BTreeMap::new(), descriptors: BTreeMap::new(), stats: JStats::default(), est_hist: vec![], first_claim_at: BTreeMap::new(), latest_claim: BTreeMap::new(), first_claim: BTreeMap::new(), cur_v_height: 0 };
+		let mut o = JusticeOracle { v, chan, tk, cur_log: 0, v_txids: BTreeSet::new(), v_txs: vec![], issued: BTreeMap::new(), issued_durable: BTreeMap::new(), descriptors: BTreeMap::new(), stats: JStats::default(), est_hist: vec![], first_claim_at: BTreeMap::new(), latest_claim: BTreeMap::new(), claim_inputs: BTreeMap::new(), first_claim: BTreeMap::new(), cur_v_height: 0 };
 		// broadcasts of V before the cheat (e.g. its own force close) still count as V's transactions
 		for (_, e) in sim.log.iter() {
 			if let SEvent::Broadcast { node, tx, .. } = e {
@@ -545,6 +547,13 @@ impl JusticeOracle {
 				continue;
 			}
 			let Some((rate, weight, in_sum, id)) = self.latest_claim.get(&tip).cloned() else { continue };
+			// only a claim that is still valid is judged on its fee: when another input of an aggregated claim has
+			// been spent meanwhile, the question is whether the remainder is claimed again at all, which the
+			// end-of-case completeness rule decides (and where the listed split-remainder finding lives)
+			let spent_elsewhere = |op: &OutPoint| sim.chain.spent_by.get(op).and_then(|s| sim.chain.confirmed.get(s)).map(|(_, h)| *h <= hv).unwrap_or(false);
+			if self.claim_inputs.get(&id).map(|ins| ins.iter().any(|i| spent_elsewhere(i))).unwrap_or(true) {
+				continue;
+			}
 			let need = req as u64 * weight / 1000;
 			if in_sum < need * 2 + 2_000 {
 				continue;
@@ -730,6 +739,7 @@ impl JusticeOracle {
 				}
 			}
 		}
+		self.claim_inputs.insert(id, key.clone());
 		for op in key.iter() {
 			self.first_claim.entry(*op).or_insert((rate, fee, id));
 			self.first_claim_at.entry(*op).or_insert(self.cur_v_height);
